@@ -27,7 +27,28 @@ def gen_case(tp, tier):
     ff = C.gen_knobs(tp, fault_free_pm=1000)
     k1 = C.gen_knobs(tp, fault_free_pm=0)
     k2 = C.gen_knobs(tp, fault_free_pm=0)
-    return {'prog': prog, 'knobs': [ff, k1, k2]}
+    # a subset of the faulty runs pre-empts at LINE level inside the time
+    # keeping code (base/main.py, clock.py, stream.py) ...
+    k2['line_mean'] = tp.choice([0, 0, 2, 4, 12, 40])
+    if k2['line_mean']:
+        k2['lat'] = tp.choice([0, 0, 1])
+        k2['stall_pm'] = 0
+        k2['max_steps'] = 200000
+    # ... while the main thread reads the time at the very instants at
+    # which the program's routines are due
+    drv = []
+    if tp.draw(2) == 0 or k2['line_mean']:
+        m = rprog.Model(prog).run()
+        times = sorted({round(ev[2], 9) for ev in m.events
+                        if ev[0] in ('wait', 'spawn')})[:12]
+        for t in times:
+            if tp.draw(2):
+                drv.append(['at', t])
+                for _ in range(1 + tp.draw(2)):
+                    drv.append(['read', tp.choice(
+                        ['sys'] + [f't{i}' for i in
+                                   range(len(prog['clocks']))])])
+    return {'prog': prog, 'knobs': [ff, k1, k2], 'driver': drv}
 
 
 def shrink_candidates(case):
@@ -39,6 +60,11 @@ def shrink_candidates(case):
     if len(case['knobs']) > 2:
         c = copy.deepcopy(case)
         c['knobs'] = c['knobs'][:2]
+        yield c
+    drv = case.get('driver') or []
+    for j in range(len(drv) - 1, -1, -1):
+        c = copy.deepcopy(case)
+        del c['driver'][j]
         yield c
 
 
@@ -130,7 +156,7 @@ def run_case(case, tape, ctx):
         for i, kn in enumerate(case['knobs']):
             kn = dict(kn)
             res = S.subrun(tape, lambda st, emit, kn=kn: W.run_rt(
-                prog, kn, st, emit))
+                prog, kn, st, emit, driver=case.get('driver')))
             subs.append(res)
             names.append('rt-ff' if kn.get('fault_free') else f'rt-f{i}')
     else:
